@@ -24,6 +24,50 @@
 
 static void put_int(long v) { printf(" %ld", v); }
 
+/* ---- driver glue of osmocon: the REAL text of handle_sercomm_write() (src/host/osmocon/osmocon.c), extracted by
+ * vp/props/C06.py on every run into c06_handle_sercomm_write.inc.  Stand-ins: dnload (only serial_fd.fd is used),
+ * write() -> capture buffer, osmo_fd_write_disable() -> flag, perror() -> flag.
+ *   c06 line "w_c06_drv <ints>":  1 d n b1..bn  sendmsg;   6 k  k calls of handle_sercomm_write;
+ *                                 7  calls until write polling is disabled
+ *   observation per call:         7 end count b1..bcount   (end = osmo_fd_write_disable was called) */
+static struct { struct { int fd; unsigned int when; } serial_fd; } dnload;
+static uint8_t drv_cap[8192];
+static size_t drv_cap_n;
+static int drv_disabled, drv_writes, drv_perrors;
+
+static long drv_write(int fd, const void *buf, size_t n)
+{
+	(void)fd;
+	drv_writes++;
+	if (drv_cap_n + n > sizeof(drv_cap))
+		n = sizeof(drv_cap) - drv_cap_n;
+	memcpy(drv_cap + drv_cap_n, buf, n);
+	drv_cap_n += n;
+	return (long)n;
+}
+static void drv_perror(const char *s) { (void)s; drv_perrors++; }
+static void osmo_fd_write_disable(void *ofd) { (void)ofd; drv_disabled++; }
+
+#define write(fd, buf, n) drv_write(fd, buf, n)
+#define perror(s) drv_perror(s)
+#include "c06_handle_sercomm_write.inc"
+#undef write
+#undef perror
+
+/* one call, observed */
+static int drv_call(void)
+{
+	size_t i;
+	drv_cap_n = 0; drv_disabled = 0; drv_writes = 0; drv_perrors = 0;
+	handle_sercomm_write();
+	put_int(7); put_int(drv_disabled ? 1 : 0); put_int((long)drv_cap_n);
+	for (i = 0; i < drv_cap_n; i++)
+		put_int(drv_cap[i]);
+	if (drv_writes > 1 || drv_perrors)
+		put_int(-996);
+	return drv_disabled;
+}
+
 static void rec_cb(uint8_t dlci, struct msgb *msg)
 {
 	unsigned i;
@@ -80,6 +124,38 @@ static long *parse(char *s, size_t *n)
 	}
 	*n = k;
 	return v;
+}
+
+static void run_drv(const long *a, size_t n)
+{
+	size_t i = 0;
+	reset_all();
+	while (i < n) {
+		long op = a[i++];
+		if (op == 1 && i + 2 <= n && a[i + 1] >= 0 && i + 2 + (size_t)a[i + 1] <= n) {
+			long d = a[i], len = a[i + 1], k;
+			struct msgb *m;
+			i += 2;
+			for (k = 0; k < len; k++)
+				if (a[i + k] < 0 || a[i + k] > 255) { printf(" -999"); return; }
+			if (d < 0 || d >= (long)ARRAY_SIZE(sercomm.tx.dlci_queues)) { printf(" -998"); return; }
+			m = sercomm_alloc_msgb(len);
+			for (k = 0; k < len; k++)
+				*msgb_put(m, 1) = (uint8_t)a[i + k];
+			i += len;
+			sercomm_sendmsg((uint8_t)d, m);
+		} else if (op == 6 && i + 1 <= n && a[i] >= 0 && a[i] <= 64) {
+			long k = a[i++];
+			while (k-- > 0)
+				drv_call();
+		} else if (op == 7) {
+			long guard = 100000;
+			while (!drv_call())
+				if (--guard == 0) { put_int(-997); return; }
+		} else {
+			printf(" -999"); return;
+		}
+	}
 }
 
 static void run_script(const long *a, size_t n)
@@ -146,6 +222,14 @@ int main(int argc, char **argv)
 		size_t n;
 		long *a;
 		while (*s == ' ') s++;
+		if (!strncmp(s, "w_c06_drv", 9)) {
+			a = parse(s + 9, &n);
+			run_drv(a, n);
+			free(a);
+			printf("\n");
+			fflush(stdout);
+			continue;
+		}
 		if (strncmp(s, "w_c06_script", 12)) { printf("!unknown\n"); continue; }
 		a = parse(s + 12, &n);
 		run_script(a, n);
